@@ -1186,9 +1186,19 @@ impl Scenario for FactoryScenario {
         // is projected onto the corpus' alphabet, so that the histories get past the first call
         let projected = self.algo.trained() && (cfg.chance(1, 2) || self.compressible);
         let tlen = if self.compressible { tlen.max(16) } else { tlen };
-        let planned = 3 + cfg.below(10);
+        // history shape: usually 3-12 calls with freely mixed payload families; one run in four is a
+        // long stream (20-49 calls), and one in two of those keeps to ONE payload family and only
+        // compresses (a log-like stream of similar records: whatever a front end learns from "the
+        // same thing happened n times in a row" needs such a stream to happen at all)
+        let long = cfg.chance(1, 4);
+        let one_family = long && cfg.chance(1, 2);
+        let family = cfg.below(8);
+        let planned = if long { 20 + cfg.below(30) } else { 3 + cfg.below(10) };
         let mut ops = cx.src.ops("ops", planned);
         let training = corpus(tk, tlen, tx);
+        if long {
+            cx.probe(if one_family { "long_stream_of_one_family" } else { "long_history" });
+        }
         let algorithm = match self.algo {
             FAlgo::None => Algorithm::None,
             FAlgo::Lz4 => Algorithm::Lz4,
@@ -1242,8 +1252,12 @@ impl Scenario for FactoryScenario {
         let mut outs: Vec<Out> = vec![];
         let mut checked = 0u64;
         let mut n_ops = 0u64;
-        while let Some(o) = ops.next() {
+        while let Some(mut o) = ops.next() {
             n_ops += 1;
+            if one_family {
+                o[0] = 0;
+                o[1] = family;
+            }
             let idx = match o[0] % 6 {
                 0 | 1 | 2 | 3 => {
                     let id = outs.len() as u64;
